@@ -258,6 +258,86 @@ func (c *Ctx) vmAliasTable() *vmAliases {
 		}
 		c.AliasNotes = append(c.AliasNotes, "vm."+f.Name()+" ("+tn+") holds the machine's prog/pc as "+prog.Name()+"/"+pc.Name())
 	}
+	// the same with the program kept in vm and only its code in the cursor struct ({code []byte; pc int}, the code
+	// field initialised from prog.code where the machine is built)
+	isByteSlice := func(t types.Type) bool {
+		sl, ok := t.Underlying().(*types.Slice)
+		if !ok {
+			return false
+		}
+		b, ok := sl.Elem().Underlying().(*types.Basic)
+		return ok && b.Kind() == types.Uint8
+	}
+	for i := 0; i < vst.NumFields() && vmHasProg && !have["pc"]; i++ {
+		f := vst.Field(i)
+		n, ok := f.Type().(*types.Named)
+		if !ok || n.Obj().Pkg() == nil || n.Obj().Pkg().Path() != bclPath || out.holders[n.Obj().Name()] {
+			continue
+		}
+		st, ok := n.Underlying().(*types.Struct)
+		if !ok {
+			continue
+		}
+		var code, pc *types.Var
+		ncode, nint := 0, 0
+		for j := 0; j < st.NumFields(); j++ {
+			g := st.Field(j)
+			if isByteSlice(g.Type()) {
+				code = g
+				ncode++
+			} else if b, isB := g.Type().Underlying().(*types.Basic); isB && b.Kind() == types.Int {
+				pc = g
+				nint++
+			}
+		}
+		if ncode != 1 || nint != 1 || st.NumFields() != 2 {
+			continue
+		}
+		// every literal of the struct sets the code field from a program's code
+		okInit, nLit := true, 0
+		for _, lit := range c.compositeLits(func(t types.Type) bool { return types.Identical(t, n) }) {
+			nLit++
+			found := false
+			for k, el := range lit.Elts {
+				val := el
+				name := ""
+				if kv, isKV := el.(*ast.KeyValueExpr); isKV {
+					if id, isID := kv.Key.(*ast.Ident); isID {
+						name = id.Name
+					}
+					val = kv.Value
+				} else if k < st.NumFields() {
+					name = st.Field(k).Name()
+				}
+				if name != code.Name() {
+					continue
+				}
+				sel, isSel := stripParens(val).(*ast.SelectorExpr)
+				if isSel && sel.Sel.Name == "code" && isNamed(derefType(c.typeOf(sel.X)), bclPath, "Prog") {
+					found = true
+				}
+			}
+			if !found {
+				okInit = false
+			}
+		}
+		if !okInit || nLit == 0 {
+			continue
+		}
+		tn := n.Obj().Name()
+		out.holders[tn] = true
+		for _, base := range []string{"<" + tn + ">.", "<vm>." + f.Name() + "."} {
+			out.prefix[base+code.Name()] = "<vm>.prog.code"
+			out.prefix[base+pc.Name()] = "<vm>.pc"
+		}
+		if f.Embedded() {
+			out.prefix["<vm>."+code.Name()] = "<vm>.prog.code"
+			if pc.Name() != "pc" {
+				out.prefix["<vm>."+pc.Name()] = "<vm>.pc"
+			}
+		}
+		c.AliasNotes = append(c.AliasNotes, "vm."+f.Name()+" ("+tn+") holds the program's code and the machine's pc as "+code.Name()+"/"+pc.Name())
+	}
 	if len(out.holders) == 0 {
 		return nil
 	}
